@@ -75,7 +75,7 @@ def generate(rng, n, tier, stats):
                 stats['history_op']['append_axis'] += 1
         for _ in range(rng.randint(1, maxlen)):
             kinds = ['set_new', 'set_new', 'set_replace', 'reject', 'reject', 'reject', 'del', 'rename_axis', 'var_rename_axis', 'set_dims', 'append_axis',
-                     'rename_axes', 'set_label', 'set_axis', 'replace_axis', 'set_axis', 'replace_axis', 'rename_key', 'rename_keys_multi', 'rename_keys_multi']
+                     'rename_axes', 'set_label', 'set_axis', 'replace_axis', 'set_axis', 'replace_axis', 'rename_key', 'rename_keys_multi', 'rename_keys_multi', 'var_set_labels']
             # an axis is named by its name or by its POSITION IN THE DATASET (which is not its position in a variable that lacks an
             # earlier dimension or lists its dimensions in another order): positions other than 0 are preferred
             byname = lambda i: rng.random() < (0.3 if i > 0 else 0.5)
@@ -94,6 +94,12 @@ def generate(rng, n, tier, stats):
                     mm = rng.choice(ex)
                     stats['reject_position'][('first' if mm == 0 else 'last' if mm == len(chosen) - 1 else 'middle')] += 1
                 op = ['set', key, new_array(rng, ds, chosen, mm)]
+            elif k == 'var_set_labels':
+                # the bulk labels setter THROUGH a one-dimensional variable: the shared axis object is relabelled, for everybody
+                cands = [x for x in have if dict.__getitem__(ds, x).ndim == 1 and dict.__getitem__(ds, x).axes[0].size <= 6]
+                if not cands: continue
+                key = rng.choice(cands); ax = dict.__getitem__(ds, key).axes[0]; kk = rng.choice(['i', 'f', 'O'])
+                op = ['var_set_labels', key, ax.name, rand_labels(rng, ax.size, kk, 'shuf'), kk]
             elif k == 'append_axis':
                 cand = [d for d in DIMPOOL if d not in dims] or DIMPOOL
                 d = rng.choice(cand) if rng.random() < 0.85 or not dims else rng.choice(dims)      # (an existing name is refused)
@@ -221,6 +227,7 @@ def apply_op(holder, op):
         elif n == 'rename_key': ds.rename_keys({op[1]: op[2]})
         elif n == 'rename_keys_multi': ds.rename_keys(dict((a, b) for a, b in op[1]))
         elif n == 'append_axis': ds.axes.append(mk_axis(op[1]['name'], op[1]['labels'], op[1]['kind']))
+        elif n == 'var_set_labels': dict.__getitem__(ds, op[1]).labels = (ops.labs_np(op[3], op[4]),)
         return None
     except Exception as e:
         nm = type(e).__name__
@@ -264,6 +271,7 @@ def cq_dsop(op):
     if n == 'rename_key': return '(DRenameKey %s %s)' % (cq_str(op[1]), cq_str(op[2]))
     if n == 'rename_keys_multi': return '(DRenameKeys %s)' % cq_list(['(%s, %s)' % (cq_str(a), cq_str(b)) for a, b in op[1]])
     if n == 'append_axis': return '(DAppendAxis %s)' % ops.cq_axis_in(op[1])
+    if n == 'var_set_labels': return '(DSetAxis %s %s %s None)' % (cq_axref(op[2]), cq_kind('U' if op[4] == 'O' else op[4]), ops.cq_labs(op[3]))
     if n == 'init': return '(DInit %s)' % cq_list(['(%s, %s)' % (cq_str(k), cq_arr_in(a)) for k, a in op[1]])
     raise Unsupported(n)
 
